@@ -261,6 +261,21 @@ def eval_exact(term, prep: Prepared, atoms: Dict[str, bool], fls: Dict[str, Frac
 # ----------------------------------------------------------------------------------------------
 # concrete replay (no symbolic values anywhere; the shim passes concrete floats to math.isclose)
 # ----------------------------------------------------------------------------------------------
+def compose_twice(cs, vars_):
+    """oracle semantics of applying the same call twice in a row (the second time to the first successor): the
+    substitution of the first call's post-state terms into its own semantics"""
+    import types
+    sub = [(vars_.atom(a), t) for a, t in cs.next_atom.items()] + [(vars_.fluent(f), t) for f, t in cs.next_fluent.items()]
+
+    def s2(t):
+        return z3.substitute(t, *sub) if sub else t
+
+    return types.SimpleNamespace(
+        defined=z3.And(cs.defined, s2(cs.defined)), pre=z3.And(cs.pre, s2(cs.pre)),
+        consistent=z3.And(cs.consistent, s2(cs.consistent)),
+        next_atom={a: s2(t) for a, t in cs.next_atom.items()}, next_fluent={f: s2(t) for f, t in cs.next_fluent.items()})
+
+
 def replay_concrete(task, atoms: Dict[str, bool], fl_float: Dict[str, float]):
     """Run the real library on a concrete state; return observed behaviour and the oracle's
     exact expectation for the same doubles."""
@@ -269,6 +284,8 @@ def replay_concrete(task, atoms: Dict[str, bool], fl_float: Dict[str, float]):
     state, keys = concrete_state(world, prep, atoms, fl_float)
     fl_exact = {f: Fraction(v) for f, v in fl_float.items()}
     cs = prep.cs
+    if task["mode"] == "reapply":
+        cs = compose_twice(cs, prep.vars)
     exp_defined = eval_exact(cs.defined, prep, atoms, fl_exact)
     exp_pre = eval_exact(cs.pre, prep, atoms, fl_exact)
     exp_cons = eval_exact(cs.consistent, prep, atoms, fl_exact)
@@ -290,6 +307,8 @@ def replay_concrete(task, atoms: Dict[str, bool], fl_float: Dict[str, float]):
     before = lib.state_digest(state)
     try:
         nxt = op.apply(state, **task.get("apply_kwargs", {}))
+        if task["mode"] == "reapply":  # the same operator object, applied to the state it has just returned
+            nxt = op.apply(nxt, **task.get("apply_kwargs", {}))
     except Exception as e:  # noqa
         out["observed"] = {"exception": f"{type(e).__name__}: {e}"}
         out["disagree"] = bool(exp_defined) and bool(exp_pre) and bool(exp_cons)
@@ -347,6 +366,8 @@ def run_task(task) -> dict:
         res["sym_atoms"] = len(prep.sym_atoms)
         cs = prep.cs
         mode = task["mode"]
+        if mode == "reapply":
+            cs = compose_twice(cs, prep.vars)
         stats = Stats()
         reached = [0]
         variants = task.get("known_variants", [])  # list of (finding_id, [variant switches])
@@ -374,6 +395,8 @@ def run_task(task) -> dict:
             impose_order_grounded(op, task.get("order"))
             before = lib.state_digest(state)
             nxt = op.apply(state, **task.get("apply_kwargs", {}))
+            if mode == "reapply":
+                nxt = op.apply(nxt, **task.get("apply_kwargs", {}))
             after = lib.state_digest(state)
             return ("apply", nxt, keys, (before, after))
 
